@@ -182,3 +182,56 @@ def sym_full(shape, val, dtype=None, **kw):
 
 def sym_ones(shape, dtype=None, **kw):
     return sym_full(shape, 1)
+
+
+def inv_contract(M):
+    """numpy/scipy inv -> fresh matrix X with M X = X M = I (contract; invertibility is a domain condition)."""
+    from .core import reals
+
+    M = np.asarray(M, dtype=object)
+    n = M.shape[0]
+    p = cur()
+    p.fresh += 1
+    X = reals(f"inv{p.fresh}", n, n)
+    eye = np.eye(n)
+    MX, XM = M.dot(X), X.dot(M)
+    for i in range(n):
+        for j in range(n):
+            t1, t2 = MX[i, j], XM[i, j]
+            p.assume((t1.t if isinstance(t1, SReal) else rv(t1)) == rv(eye[i, j]))
+            p.assume((t2.t if isinstance(t2, SReal) else rv(t2)) == rv(eye[i, j]))
+    p.apps.setdefault("inv", []).append((X, M))
+    return X
+
+
+class CholeskyStub:
+    """numpy.linalg.cholesky -> the lower-triangular factor the harness built the matrix from.
+    The factor is only returned after the solver has proved M == L L^T element-wise."""
+
+    def __init__(self):
+        self.factors = []
+        self.calls = []
+
+    def register(self, L):
+        self.factors.append(np.asarray(L, dtype=object))
+
+    def __call__(self, M):
+        from .poly import NotPolynomial, prove_linearized_auto
+
+        M = np.asarray(M, dtype=object)
+        p = cur()
+        for L in self.factors:
+            if L.shape != M.shape:
+                continue
+            LLt = L.dot(L.T)
+            goal = z3.And(*[a == b for a, b in zip(terms(M), terms(LLt))])
+            try:
+                v = prove_linearized_auto([goal], p.assumes, rounds=6, timeout_ms=20000)
+            except NotPolynomial:
+                v = refute(goal, p.assumes, 20000)
+            if v.status != "unsat":
+                v = refute(goal, p.assumes, 20000)
+            if v.status == "unsat":
+                self.calls.append(("matched", M.shape))
+                return L
+        raise np.linalg.LinAlgError("CholeskyStub: argument is not provably L L^T of a registered factor")
